@@ -19,7 +19,7 @@ type NestedOpt struct {
 	DSSE        bool
 	Defect      string // "" | sub-other-key | sub-sig-corrupt | sub-expired | link-missing | link-tampered | link-unauthorised | rule-violated | threshold-unmet
 	DefectLevel int    // level whose layout / links carry the defect
-	Delegate    string // authorised | unlisted | foreign   (who offers the level-2 layout)
+	Delegate    string // authorised | unlisted | foreign | other-step   (who offers the level-2 layout)
 	ParentRules string // match | violated   (rules of the root's step b against the summary)
 	Expired     string // expiry used by sub-expired
 	SingleStep  bool   // the deepest layout has one step only (it consumes x and produces y)
@@ -138,6 +138,8 @@ func (n *Nested) level(base string, l int, dir string, signer *K, stepNameForSum
 				deleg = unl
 			case "foreign":
 				deleg = foreign
+			case "other-step":
+				deleg = fa // defined by the layout and authorised for step a only
 			}
 		}
 		subDir := filepath.Join(dir, fmt.Sprintf("b.%.8s", deleg.ID))
